@@ -172,6 +172,20 @@ func (b *termBuilder) build(v ssa.Value, d int) *Term {
 					}
 				}
 			}
+			// … or what the literal itself stored there, when it does so once and before the read
+			if fv, ok := x.X.(*ssa.FreeVar); ok && isNewHelper(fv.Parent()) {
+				var only *ssa.Store
+				n := 0
+				for _, r := range *fv.Referrers() {
+					if st, ok := r.(*ssa.Store); ok && st.Addr == ssa.Value(fv) {
+						only = st
+						n++
+					}
+				}
+				if n == 1 && instrDominates(only, x) {
+					return b.of(only.Val, d+1)
+				}
+			}
 			in := b.of(x.X, d+1)
 			if in.Op == "addr" {
 				return &Term{Op: "field", Sym: in.Sym, Owner: in.Owner, Args: in.Args}
@@ -206,6 +220,14 @@ func (b *termBuilder) build(v ssa.Value, d int) *Term {
 		}
 		if x.Common().IsInvoke() {
 			t.Args = append(t.Args, b.of(x.Common().Value, d+1))
+		}
+		// arguments are listed in the order the callee's parameters had when the rules were
+		// written, so that a reordered parameter list leaves every term unchanged
+		if perm := paramPerm(x.Common().StaticCallee()); perm != nil && len(perm) == len(x.Common().Args) {
+			for k := range perm {
+				t.Args = append(t.Args, b.of(x.Common().Args[perm[k]], d+1))
+			}
+			return t
 		}
 		for _, a := range x.Common().Args {
 			t.Args = append(t.Args, b.of(a, d+1))
